@@ -178,6 +178,17 @@ func TestVerif_C39_Md(t *testing.T) {
 	for _, s := range []string{"true", "false", "TRUE", "FALSE", "True", "False", "tRUE", "truE", "true\n", " true", "yes", "no", "on", "2", "-1", "00", "t1", "falsee", "\x00"} {
 		run("persistde", verifh.Hex([]byte(s)))
 	}
+	// every byte value at every position of every accepted spelling
+	for _, sp := range []string{"true", "false", "TRUE", "FALSE", "True", "False", "1", "0", "t", "f", "T", "F"} {
+		for i := 0; i < len(sp); i++ {
+			for b := 0; b < 256; b++ {
+				m := []byte(sp)
+				m[i] = byte(b)
+				run("persistde", verifh.Hex(m))
+				tr.Count("persistde_byte_subst", 1)
+			}
+		}
+	}
 	for i := 0; i < verifh.Scale(300, 20000); i++ {
 		s := []byte(r.Pick("true", "false", "TRUE", "FALSE", "True", "False", "1", "0", "t", "f", "T", "F"))
 		if r.Chance(2, 3) && len(s) > 0 {
